@@ -15,6 +15,7 @@ From Verif Require Import Base.Bytes Model.Chain Model.GoText Model.Envelope Mod
 From Verif Require Model.Schema Model.Validate Src.SrcValidate.
 From Verif Require Corr.C05 Properties.C08.
 From Verif Require Import Proofs.GateLinkDefs Proofs.GateLinkSpec Proofs.GateLinkEval.
+From Verif Require Proofs.EvalTotalFail.
 
 (* ---- (2) the evaluator's gate decides exactly as JSON Schema prescribes on this family ---- *)
 Theorem C08_evaluator_gate_is_instance : forall re D f (insch : in_schema) (iv : chain) (xin : xval),
@@ -83,16 +84,37 @@ Theorem C08_gate_zero_iff_accepted : forall (insch : in_schema) (iv : chain),
   contains_unknowns iv = false -> (snd (validate (AccIn insch) iv) =? 0) = fst (validate (AccIn insch) iv).
 Proof. exact validate_zero_iff_accepted. Qed.
 
-(* the only rejection without diagnostic: a known object, nothing missing, an undeclared key of a CLOSED record,
-   and an unknown somewhere inside (the repaired silent rejection reports only for concrete inputs) *)
-Theorem C08_gate_silent_corner : forall props required closed (iv : chain),
+(* the rejections without diagnostic.  Outside the decidable class [EvalTotalFail.never_arg] (the inputs themselves, or the
+   value of a declared property, are an UNKNOWN of schema `false`: rejected by validateSchemaType without reporting,
+   eval_validate.go:191-193) the only one is: a known object, nothing missing, an undeclared key of a CLOSED record, and an
+   unknown somewhere inside (the repaired silent rejection reports only for concrete inputs).  Without the class the
+   statement is false (_refuted: an OPEN record, unknown inputs of schema `false`); _exact characterises all of them. *)
+Theorem C08_gate_silent_corner_refuted :
+  exists props required closed iv,
+    validate (AccIn (InRecord props required closed)) iv = (false, 0) /\ closed = false
+    /\ (forall sec unk sc ps rest, iv <> LObj sec unk sc ps :: rest)
+    /\ EvalTotalFail.never_arg (AccIn (InRecord props required closed)) iv = true.
+Proof. exact validate_silent_corner_refuted. Qed.
+
+Theorem C08_gate_silent_corner_partial : forall props required closed (iv : chain),
+  EvalTotalFail.never_arg (AccIn (InRecord props required closed)) iv = false ->
   validate (AccIn (InRecord props required closed)) iv = (false, 0) ->
   contains_unknowns iv = true
   /\ closed = true
   /\ (forall r, In r required -> In r (keys iv))
   /\ (exists k, In k (keys iv) /\ alookup k props = None)
   /\ (exists sec unk sc ps rest, iv = LObj sec unk sc ps :: rest /\ unk = false).
-Proof. exact validate_silent_corner. Qed.
+Proof. exact validate_silent_corner_partial. Qed.
+
+Theorem C08_gate_silent_corner_exact : forall props required closed (iv : chain),
+  validate (AccIn (InRecord props required closed)) iv = (false, 0) ->
+  contains_unknowns iv = true
+  /\ (silent_never iv = true
+      \/ ((forall r, In r required -> In r (keys iv))
+          /\ ((closed = true /\ exists k, In k (keys iv) /\ alookup k props = None)
+              \/ (exists p, In p props /\ In (fst p) (keys iv) /\ silent_never (property (fst p) iv) = true))
+          /\ (exists sec unk sc ps rest, iv = LObj sec unk sc ps :: rest /\ unk = false))).
+Proof. exact validate_silent_corner_exact. Qed.
 
 (* the two models side by side, concrete inputs: (Open reached, error reported) of C08's gate = (accepted, count > 0) *)
 Theorem C08_gate_models_agree : forall re D f (insch : in_schema) (iv : chain) (xin : xval),
@@ -169,6 +191,12 @@ Example C08g_silent_corner :
   validate (AccIn (InRecord [("k", "string")] ["k"] true)) C08g_extra_unknown = (false, 0)
   /\ contains_unknowns C08g_extra_unknown = true.
 Proof. vm_compute. split; reflexivity. Qed.
+
+(* a declared property whose value is an unknown of schema `false`, OPEN record: rejected without a diagnostic *)
+Example C08g_silent_never_member :
+  validate (AccIn (InRecord [("region", "string")] [] false))
+    [LObj false false (ScObject [("region", ScNever)] None) [("region", [unknown_layer false ScNever])]] = (false, 0).
+Proof. exact validate_silent_corner_refuted_member. Qed.
 
 Example C08g_bad_type :
   validate (AccIn C08g_in) (chain_of C08g_badty) = (false, 1)
